@@ -80,6 +80,14 @@ func Exec(s *world.Stack, w *world.World, rq world.Req, forPID string) *world.Ob
 			}
 		}
 	}
+	if o.Req.Tag.Kind == "otplogin" {
+		// an OTP that was accepted as the first factor of a 2FA login (the login is parked) is spent too
+		owner := o.Req.Tag.PID
+		parked := (o.SessAfter["totp_pending"] == owner && o.SessBefore["totp_pending"] != owner) || (o.SessAfter["sms_pending"] == owner && o.SessBefore["sms_pending"] != owner)
+		if sec := t.ByVal("otp", o.Req.Tag.Secret); parked && owner != "" && sec != nil && !sec.Dead && sec.Owner == owner {
+			sec.Dead, sec.Why, sec.Used = true, "used", true
+		}
+	}
 	if o.Req.Tag.Kind == "recover_end" {
 		if sec := t.ByVal("rtok", o.Req.Tag.Secret); sec != nil && !sec.Dead {
 			if r, ok := w.DB.Users[sec.Owner]; ok && prePw[sec.Owner] != r.Password {
